@@ -1427,6 +1427,12 @@ class Translator:
             if size is None:
                 raise Unsupported('array new without a size expression in %s' % self.cur_fn)
             return '%s(%s)' % (bind, self.expr(size))
+        bind = self.calls.get('new:@' + elem)
+        ctor = next((c for c in n.get('inner', []) if c.get('kind') == 'CXXConstructExpr'), None)
+        if bind is not None and ctor is not None:
+            # `new (placement) T(args)`: the unit's allocation-and-construction model receives the constructor arguments; where the object lives is dropped
+            self.dropped.add('placement / allocator arguments of `new %s(...)` in %s' % (elem, self.cur_fn))
+            return '%s(%s)' % (bind, ', '.join(self.expr(a) for a in ctor.get('inner', [])))
         raise Unsupported('new expression of %s in %s' % (elem, self.cur_fn))
 
     def e_CXXDefaultInitExpr(self, n):
